@@ -143,6 +143,7 @@ pub fn alphabet(full: bool) -> Vec<Op> {
             Op::AppendLines(s("/a/f"), vec!["{L1}".into(), "{L2}".into()]),
             Op::WriteLines(s("/a/f"), vec!["{W1}".into(), "{W2}".into()]),
             Op::AppendLine(s("/a/f"), "{A}".into()),
+            Op::WriteAll(s("/a/f"), vec![b'M'; 150_000]),
         ]);
     }
     v
@@ -336,6 +337,7 @@ pub fn judge_execution(pc: &mut ProgCtx, e: &Execution, mem: &Memfs, no_lin: boo
 /// Explore all schedules (up to `cap`) of one program; returns number of executions
 pub fn explore(c: &Ctx, seed: u8, program: Vec<Vec<Op>>, cap: usize, via_vfs: bool, no_lin: bool) -> usize {
     let mut pc = ProgCtx::new(seed, program);
+    let program_json = serde_json::to_string(&pc.program).unwrap();
     let mut prefix: Vec<usize> = vec![];
     let mut n = 0;
     loop {
@@ -344,7 +346,7 @@ pub fn explore(c: &Ctx, seed: u8, program: Vec<Vec<Op>>, cap: usize, via_vfs: bo
             Vfs::Memfs(m) => m,
             _ => unreachable!(),
         };
-        mark("sched", &serde_json::to_string(&json!({"seed_state": seed, "program": pc.program, "schedule": prefix, "via_vfs": via_vfs, "no_lin": no_lin})).unwrap());
+        mark("sched", &format!("{{\"seed_state\":{},\"program\":{},\"schedule\":{:?},\"via_vfs\":{},\"no_lin\":{}}}", seed, program_json, prefix, via_vfs, no_lin));
         let e = if via_vfs { run_controlled(&holder, &pc.program, &prefix) } else { run_controlled(mem, &pc.program, &prefix) };
         n += 1;
         c.eval(1);
@@ -741,7 +743,7 @@ pub fn run(c: &Ctx) {
     // soon as a writer queues in between (std's RwLock prefers writers); whether a call nests is a property
     // of the call alone, so one-thread programs over every rich call form on every path of a seed state with
     // dirs, files and a link settle it
-    let disc_paths = ["/", "/a", "/a/b", "/a/b/h", "/a/f", "/l", "/l/f", "/d", "/nope", "/a/new", "f"];
+    let disc_paths = ["/", "/a", "/a/b", "/a/b/h", "/a/f", "/l", "/l/f", "/d", "/nope", "/a/new", "f", "..", "../a", "a/../../d"];
     let mut disc = 0u64;
     for p in disc_paths {
         for op in crate::fsalpha::single_path_ops(p, true) {
@@ -899,6 +901,25 @@ pub fn run(c: &Ctx) {
         }
     }
     c.note("handle_session_vs_replacers_programs", sess);
+    // a write_all of more than a mebibyte (a payload an implementation may want to copy outside the lock) racing
+    // two calls that replace its file: still one step
+    let big = Op::WriteAll(s("/a/f"), vec![b'M'; 1_200_000]);
+    let mut big_jobs: Vec<(Vec<Vec<Op>>, bool)> = vec![];
+    for (i, m1) in replacers.iter().enumerate() {
+        for (j, m2) in replacers.iter().enumerate() {
+            big_jobs.push((vec![vec![big.clone()], vec![m1.clone(), m2.clone()]], (i + j) % 2 == 1));
+        }
+    }
+    {
+        let t0 = std::time::Instant::now();
+        let big_execs = std::sync::atomic::AtomicU64::new(0);
+        par_for(big_jobs.len() as u64, 1, |i| {
+            let (p, via) = &big_jobs[i as usize];
+            let n = explore(c, 2, p.clone(), cap.min(60), *via, false);
+            big_execs.fetch_add(n as u64, std::sync::atomic::Ordering::Relaxed);
+        });
+        c.note("big_write_vs_replacers", json!({"programs": big_jobs.len(), "executions": big_execs.load(std::sync::atomic::Ordering::Relaxed), "seconds": t0.elapsed().as_secs_f64()}));
+    }
     c.note("programs", jobs.len());
     let execs = std::sync::atomic::AtomicU64::new(0);
     par_for(jobs.len() as u64, 4, |i| {
